@@ -43,12 +43,13 @@ func (u *Unit) deepCopyObj(st *State, guard *Term, src *Term, t types.Type, dept
 func (u *Unit) deepCopyInto(st *State, guard *Term, src, dst *Term, t types.Type, depth int) {
 	c := u.c
 	if s := u.leafSort(t); s != nil {
-		v := u.load(st, src, t, guard).T
+		// raw read: the copied value inherits whatever is known about the source value
+		v := u.readThrough(u.heapArr(st, s), src, guard)
 		switch tt := t.Underlying().(type) {
 		case *types.Pointer:
 			isNil := c.Eq(v, c.Nil())
 			var sub *Term
-			if depth > 0 && !strings.HasPrefix(typeName(tt.Elem()), "k8s.io/apimachinery/pkg/apis/meta/v1.ManagedFieldsEntry") {
+			if depth > 0 && !strings.HasPrefix(typeName(tt.Elem()), "k8s.io/api/") && !strings.HasPrefix(typeName(tt.Elem()), "k8s.io/apimachinery/pkg/apis/meta/v1.ManagedFieldsEntry") {
 				sub = u.deepCopyObj(st, c.And(guard, c.Not(isNil)), v, tt.Elem(), depth-1)
 			} else {
 				sub = u.allocObj(st)
@@ -64,6 +65,10 @@ func (u *Unit) deepCopyInto(st *State, guard *Term, src, dst *Term, t types.Type
 			var sl, dl []leafLoc
 			u.leafAddrs(c.SElem(v, i), tt.Elem(), &sl)
 			u.leafAddrs(c.SElem(ns, i), tt.Elem(), &dl)
+			if len(sl) > 10 {
+				// large element types (containers, volumes ...): only length and nil-ness are carried over
+				sl, dl = nil, nil
+			}
 			rng := c.And(c.Le(c.Int(0), i), c.Lt(i, c.SLen(v)))
 			for x := range sl {
 				a := u.heapArr(st, sl[x].Sort)
